@@ -154,9 +154,33 @@ theorem valid_sum2_factor_b : (pool[25]'(by decide)).Valid := by
   simp only [h1, h2, sum7]; ring
 
 /-- **every rule of the pool is valid** -/
+theorem valid_sum_infactor : (pool[26]'(by decide)).Valid := by
+  intro ρ h env
+  simp only [pool, List.getElem_cons_succ, List.getElem_cons_zero] at h ⊢
+  have hc : FreeIn ρ "x" "c" := h ("x", "c") (by simp)
+  simp only [evalP, hc env, sum7]; ring
+
+theorem valid_sum_infactor_f2 : (pool[27]'(by decide)).Valid := by
+  intro ρ h env
+  simp only [pool, List.getElem_cons_succ, List.getElem_cons_zero] at h ⊢
+  have hc : FreeIn ρ "f2" "c" := h ("f2", "c") (by simp)
+  simp only [evalP, hc env, sum7]; ring
+
+theorem valid_sum_infactor_f3 : (pool[28]'(by decide)).Valid := by
+  intro ρ h env
+  simp only [pool, List.getElem_cons_succ, List.getElem_cons_zero] at h ⊢
+  have hc : FreeIn ρ "f3" "c" := h ("f3", "c") (by simp)
+  simp only [evalP, hc env, sum7]; ring
+
+theorem valid_sum_infactor_f4 : (pool[29]'(by decide)).Valid := by
+  intro ρ h env
+  simp only [pool, List.getElem_cons_succ, List.getElem_cons_zero] at h ⊢
+  have hc : FreeIn ρ "f4" "c" := h ("f4", "c") (by simp)
+  simp only [evalP, hc env, sum7]; ring
+
 theorem pool_valid : ∀ r ∈ pool, r.Valid := by
   intro r hr
-  have hlen : pool.length = 26 := by decide
+  have hlen : pool.length = 30 := by decide
   obtain ⟨i, hi, rfl⟩ := List.getElem_of_mem hr
   rw [hlen] at hi
   interval_cases i
@@ -186,6 +210,10 @@ theorem pool_valid : ∀ r ∈ pool, r.Valid := by
   · exact valid_h_def
   · exact valid_sum2_factor
   · exact valid_sum2_factor_b
+  · exact valid_sum_infactor
+  · exact valid_sum_infactor_f2
+  · exact valid_sum_infactor_f3
+  · exact valid_sum_infactor_f4
 
 /-- the deliberately invalid rules are indeed invalid (witness: constant interpretations) -/
 theorem bad_sum_const_invalid : ¬ (badPool[1]'(by decide)).Valid := by
